@@ -255,7 +255,7 @@ fn respond(c: &mut C, qi: usize, server: IpAddr, victim: IpAddr, mdns: bool) -> 
         let q = &c.qs[qi];
         (q.name.clone(), q.qtype, q.port.unwrap(), q.txid.unwrap())
     };
-    let kind = c.tape.draw(16);
+    let kind = c.tape.draw(19); // 16..18: a plain valid answer
     if kind == 0 || kind == 1 || c.qs[qi].silent {
         c.stats.inc("dns.response-withheld");
         return Ok(());
@@ -375,6 +375,68 @@ fn respond(c: &mut C, qi: usize, server: IpAddr, victim: IpAddr, mdns: bool) -> 
         _ => {}
     }
     let mut b = enc_dns(&d, c.tape.draw(2) == 0);
+    if kind == 14 || kind == 15 {
+        // hand-built matching responses that lean on name compression
+        let mut v = vec![];
+        v.extend_from_slice(&txid.to_be_bytes());
+        v.extend_from_slice(&0x8180u16.to_be_bytes());
+        v.extend_from_slice(&[0, 1, 0, 0, 0, 0, 0, 0]);
+        v.extend_from_slice(&enc_name(&name));
+        v.extend_from_slice(&qtype.to_be_bytes());
+        v.extend_from_slice(&[0, 1]);
+        let addr = |last: u8| -> Vec<u8> {
+            if qtype == T_A {
+                vec![6, 6, 6, last]
+            } else {
+                let mut a = vec![0x20, 0x01, 0x0d, 0xb8, 0x66];
+                a.extend_from_slice(&[0; 10]);
+                a.push(last);
+                a
+            }
+        };
+        let mut an = 0u16;
+        let rr = |v: &mut Vec<u8>, owner: &[u8], rtype: u16, rdata: &[u8]| {
+            v.extend_from_slice(owner);
+            v.extend_from_slice(&rtype.to_be_bytes());
+            v.extend_from_slice(&[0, 1, 0, 0, 0, 60]);
+            v.extend_from_slice(&(rdata.len() as u16).to_be_bytes());
+            v.extend_from_slice(rdata);
+        };
+        if kind == 14 {
+            // longer than 1024 octets: TXT records of the queried name as filler, then a record of another name spelled
+            // out at offset 1036 and one whose owner is a compression pointer to that offset (a 14-bit offset whose
+            // low ten bits read 12 - where the question name sits). Neither answers the query.
+            while v.len() + 12 + 200 <= 1036 - 12 - 13 {
+                rr(&mut v, &[0xc0, 12], 16, &[199u8; 200]);
+                an += 1;
+            }
+            let fill = 1036 - v.len() - 12;
+            rr(&mut v, &[0xc0, 12], 16, &vec![(fill - 1).min(255) as u8; fill]);
+            an += 1;
+            let other = enc_name(&labels("other.example"));
+            let at = v.len();
+            rr(&mut v, &other, qtype, &addr(7));
+            rr(&mut v, &[0xc0 | (at >> 8) as u8, at as u8], qtype, &addr(8));
+            an += 2;
+            c.stats.inc(if at == 1036 { "dns.response-with-a-pointer-beyond-offset-1023" } else { "dns.response-long" });
+        } else {
+            // a chain of two pointers, the second one pointing forwards: the owner of the last record points at two
+            // octets inside the TXT record's data, which point on to the address record's data further down
+            let txt_at = v.len();
+            rr(&mut v, &[0xc0, 12], 16, &[0u8; 8]);
+            let inner = txt_at + 12 + 2; // third octet of the TXT data
+            rr(&mut v, &[0xc0, 12], qtype, &addr(9));
+            let fwd = v.len() - 3;
+            v[inner] = 0xc0 | (fwd >> 8) as u8;
+            v[inner + 1] = fwd as u8;
+            rr(&mut v, &[0xc0 | (inner >> 8) as u8, inner as u8], qtype, &addr(10));
+            an += 3;
+            c.stats.inc("dns.response-with-a-forward-pointer-chain");
+        }
+        v[6] = (an >> 8) as u8;
+        v[7] = an as u8;
+        b = v;
+    }
     if raw_edit == Some(2) {
         // the pointer in the last RDATA points at the cut label that ends the message
         let at = b.len() - 5;
